@@ -227,7 +227,7 @@ def make_read(rng, ref, meth, conv_base, s, e, rev, fancy=False, qchoices=(2, 12
             'rev': rev, 'md': True}
 
 
-def gen_case(rng, Lchoices=(3, 4, 5, 6, 8, 12, 20, 40, 80), ref=None, g=None):
+def gen_case(rng, Lchoices=(3, 4, 5, 6, 8, 12, 20, 40, 80), ref=None, g=None, nfr=None):
     """one simulated molecule.  g (default rng) draws everything that fixes the GEOMETRY and configuration (classes,
     strand convention, coordinates, cigars); rng draws reference, methylation, bases and qualities: two calls with
     equally seeded g on two contigs of the same length give molecules at the same coordinates"""
@@ -251,7 +251,7 @@ def gen_case(rng, Lchoices=(3, 4, 5, 6, 8, 12, 20, 40, 80), ref=None, g=None):
     conv = ('G' if strand else 'C') if ts == 'F' else ('C' if strand else 'G')
     if rng.random() < 0.1:
         conv = 'C' if conv == 'G' else 'G'   # chemistry on the unexpected strand
-    nfr = g.choice([1, 1, 2, 2, 3, 4])
+    nfr = nfr or g.choice([1, 1, 2, 2, 3, 4])
     qch = rng.choice([(2, 12, 20, 30, 37, 40), (30,), (20, 30)])
     err = rng.choice([0, 0.04, 0.15])
     frags = []
@@ -316,6 +316,35 @@ def gen_history(rng):
         del m['ref'], m['refkind']
         mols.append(m)
     return {'contigs': contigs, 'refkind': rng.choice(['pysam', 'cached', 'cachednh']), 'mols': mols}
+
+
+def gen_mhist(rng):
+    """a history on ONE molecule object: constructor, then growth by add_fragment / add_molecule / _add_fragment with a
+    __finalise__ after (most) steps; the fragments overlap (same anchor) and carry read errors, so later fragments
+    out-vote earlier ones and cover new positions"""
+    c = gen_case(rng, Lchoices=(5, 6, 8, 12, 20, 40), nfr=rng.randint(2, 7))
+    pool = c.pop('frags')
+    if pool[0][0] is None:                    # the constructor gets a fragment with an R1 (a strand)
+        pool.sort(key=lambda f: f[0] is None)
+    ops = [['add', pool[0]]]
+    if rng.random() < 0.85:
+        ops.append(['fin'])
+    i = 1
+    while i < len(pool):
+        r = rng.random()
+        if r < 0.45:
+            n = rng.randint(1, min(3, len(pool) - i))
+            ops.append(['mol', pool[i:i + n], rng.random() < 0.3]); i += n
+        elif r < 0.8:
+            ops.append(['add', pool[i]]); i += 1
+        else:
+            ops.append(['raw', pool[i]]); i += 1
+        if rng.random() < 0.7:
+            ops.append(['fin'])
+    if ops[-1] != ['fin']:
+        ops.append(['fin'])
+    c['ops'] = ops
+    return c
 
 
 def history_case(h, k):
@@ -415,6 +444,7 @@ def spec_violations(case, res):
     d1, d2, minq = kw.get('dove_R1_distance', 0), kw.get('dove_R2_distance', 0), kw.get('min_phred_score')
     # positions that may be called: inside the mate-overlap-safe span of a fragment, aligned, MD base = base
     allowed = set()
+    votes = collections.defaultdict(collections.Counter)
     for a, b in res['abstract']:
         r1 = a[0] if a is not None else None; r2 = b[0] if b is not None else None
         if case['unsafe']:
@@ -428,12 +458,48 @@ def spec_violations(case, res):
                 lo, hi = r1[1] + d1, r2[2] - d2 - 1
             else:
                 continue
+        if any(r is not None and not r[3] for r in (r1, r2)):
+            continue                      # a mate without MD tag: the fragment contributes nothing
+        per = []
         for r in (r1, r2):
-            if r is None or not r[3]:
-                continue
-            for pos, qb, q, rb in r[4]:
-                if (lo is None or lo <= pos <= hi) and chr(rb).upper() == base and (minq is None or q >= minq):
-                    allowed.add(pos)
+            d = {}
+            if r is not None:
+                for pos, qb, q, rb in r[4]:
+                    if (lo is None or lo <= pos <= hi) and chr(rb).upper() == base and (minq is None or q >= minq):
+                        allowed.add(pos)
+                        d[pos] = (chr(qb), q)
+            per.append(d)
+        for pos in set(per[0]) | set(per[1]):      # the better mate votes; equal quality, different base: no vote
+            c1, c2 = per[0].get(pos), per[1].get(pos)
+            if c1 is None or c2 is None:
+                b = (c1 or c2)[0]
+            elif c1[1] > c2[1]:
+                b = c1[0]
+            elif c2[1] > c1[1]:
+                b = c2[0]
+            else:
+                b = c1[0] if c1[0] == c2[0] else 'N'
+            if b != 'N':
+                votes[pos][b] += 1
+    # the consensus of the fragments held NOW: strict majority of the fragment votes
+    exp_cons = {}
+    for pos, v in votes.items():
+        top = max(v.values())
+        win = [b for b in v if v[b] == top]
+        if len(win) == 1:
+            exp_cons[pos] = (win[0], top)
+    got_cons = {c[0]: (c[1], c[3]) for c in res['calls']}
+    for pos in sorted(set(exp_cons) | set(got_cons)):
+        if pos not in got_cons:
+            out.append(('consensus-missing', 'position %d: the fragments held vote %s (%d) but the call dictionary has no '
+                        'entry' % ((pos,) + exp_cons[pos])))
+        elif pos not in exp_cons:
+            if pos in allowed:
+                out.append(('consensus', 'position %d: dictionary entry with consensus %r, but the fragments held have no '
+                            'strict majority there (votes %r)' % (pos, got_cons[pos][0], dict(votes.get(pos, {})))))
+        elif exp_cons[pos] != got_cons[pos]:
+            out.append(('consensus', 'position %d: dictionary entry says consensus %r (cov %d), the fragments held at this '
+                        'finalise vote %r (cov %d)' % ((pos,) + got_cons[pos] + exp_cons[pos])))
     seen = set()
     cnt = collections.Counter()
     for pos, cons, letter, cov, refbase, same_contig in res['calls']:
@@ -547,18 +613,31 @@ class Prop(fw.PropBase):
                         hs.append(d['history'])
         return hs + [gen_history(self.rng) for _ in range(n)]
 
-    def run_impl_batched(self, cases, hists=()):
-        res, hres = [], []
+    def gen_mhists(self):
+        n = 350 if self.tier == 'quick' else 8000
+        ms = []
+        if os.path.isdir(CORPUS):
+            for fn in sorted(os.listdir(CORPUS)):
+                if fn.endswith('.json'):
+                    d = json.load(open(os.path.join(CORPUS, fn)))
+                    if 'mhist' in d:
+                        ms.append(d['mhist'])
+        return ms + [gen_mhist(self.rng) for _ in range(n)]
+
+    def run_impl_batched(self, cases, hists=(), mhists=()):
+        res, hres, mres = [], [], []
         B = 4000
         for i in range(0, len(cases), B):
             res += fw.run_impl('impl_c14.py', {'cases': cases[i:i + B]})['cases']
         for i in range(0, len(hists), 1000):
             hres += fw.run_impl('impl_c14.py', {'histories': hists[i:i + 1000]})['histories']
-        return res, hres
+        for i in range(0, len(mhists), 1500):
+            mres += fw.run_impl('impl_c14.py', {'mhists': mhists[i:i + 1500]})['mhists']
+        return res, hres, mres
 
-    def flatten(self, cases, res, hists, hres):
-        """history molecules appended to the single-molecule stream as stand-alone cases (own contig as reference),
-        annotated with (history index, position in the history)"""
+    def flatten(self, cases, res, hists, hres, mhists=(), mres=()):
+        """history molecules and the finalises of single-molecule histories appended to the single-molecule stream as
+        stand-alone cases, annotated with where they come from"""
         cases, res = list(cases), list(res)
         self.n_single = len(cases)
         for hi, (h, rs) in enumerate(zip(hists, hres)):
@@ -566,15 +645,38 @@ class Prop(fw.PropBase):
                 c = history_case(h, k)
                 c['_hist'] = [hi, k]
                 cases.append(c); res.append(r)
+        self.n_hist_end = len(cases)
+        self.mh_inputs = []          # model mode 5 inputs, one per single-molecule history
+        for mi, (m, rs) in enumerate(zip(mhists, mres)):
+            if isinstance(rs, dict):
+                raise fw.Broken('correspondence', 'harness could not run a molecule history: %s' % rs.get('harness_error'))
+            base = {k: v for k, v in m.items() if k != 'ops'}
+            held, mops, nf = [], [], 0
+            for oi, (op, r) in enumerate(zip(m['ops'], rs)):
+                if op[0] == 'fin':
+                    fin = r['fin']
+                    if fin['abstract'] != held:
+                        raise fw.Broken('correspondence', 'harness: fragments gained by the operations differ from the '
+                                                          'fragments the molecule holds at finalise (history %d)' % mi)
+                    c = dict(base); c['_mhist'] = [mi, oi, nf]; c['frags'] = []
+                    nf += 1
+                    cases.append(c); res.append(fin)
+                    mops.append([3, model_input(c, fin)[:7]])
+                else:
+                    held = held + r['gained']
+                    kind = {'add': 0, 'mol': 1, 'raw': 2}[op[0]]
+                    mops.append([kind, [[[] if a is None else a, [] if b is None else b] for a, b in r['gained']]])
+            self.mh_inputs.append([[ord(ch) for ch in m['ref']], mops])
         return cases, res
 
     # ---------------------------------------------------------------- K
     def correspondence(self):
         singles = self.gen_cases()
         hists = self.gen_histories()
-        res, hres = self.run_impl_batched(singles, hists)
-        cases, res = self.flatten(singles, res, hists, hres)
-        self.cases, self.res, self.hists = cases, res, hists
+        mhists = self.gen_mhists()
+        res, hres, mres = self.run_impl_batched(singles, hists, mhists)
+        cases, res = self.flatten(singles, res, hists, hres, mhists, mres)
+        self.cases, self.res, self.hists, self.mhists = cases, res, hists, mhists
         herr = [r['harness_error'] for r in res if 'harness_error' in r]
         if herr:
             raise fw.Broken('correspondence', 'harness could not build %d molecules; first: %s' % (len(herr), herr[0]))
@@ -617,11 +719,28 @@ class Prop(fw.PropBase):
                     hist['history_entries_at_coordinate_called_before_on_same_contig'] += 1
                 prev.append(c['contig'])
         hist['histories'] = len(hists)
+        hist['molecule_histories'] = len(mhists)
+        hist['molecule_history_finalises'] = len(cases) - self.n_hist_end
+        prev = {}
+        for c, o in zip(cases, impl):
+            if '_mhist' in c:
+                mi = c['_mhist'][0]
+                if mi in prev and prev[mi] != o and isinstance(o[0], list) and isinstance(prev[mi][0], list):
+                    pd = {e[0]: e for e in prev[mi][0]}
+                    hist['refinalise_entries_changed_consensus_or_letter'] += sum(
+                        1 for e in o[0] if e[0] in pd and pd[e[0]][1:3] != e[1:3])
+                    hist['refinalise_entries_new_position'] += sum(1 for e in o[0] if e[0] not in pd)
+                prev[mi] = o
+        for m in mhists:
+            for op in m['ops']:
+                hist['op_' + op[0]] += 1
         hist['history_molecules'] = len(cases) - self.n_single
         self.cov.update({
             'evaluations': len(cases),
             'distinct_nontrivial': len(nontrivial),
-            'rule': 'HISTORIES of 2-6 molecules on 2-3 contigs of different sequence called by ONE TAPS object (same '
+            'rule': 'HISTORIES ON ONE MOLECULE OBJECT (constructor, growth by add_fragment / add_molecule / _add_fragment, '
+                    '__finalise__ after most steps; every finalise compared with the calls from all fragments held then; '
+                    'model mode 5, theorem C14_molecule_history); HISTORIES of 2-6 molecules on 2-3 contigs of different sequence called by ONE TAPS object (same '
                     'coordinates on different contigs and on the same contig again; model mode 4 = history through one '
                     'object, theorem C14_history_stateless) and single molecules with a fresh object: '
                     'molecules of 1-4 fragments simulated on random references (length 3-80, CpG enriched, N / IUPAC / '
@@ -634,7 +753,7 @@ class Prop(fw.PropBase):
             'histogram': dict(hist), 'letters': dict(letters),
             'corpus_cases': self.n_corpus, 'exhaustive_small_reference_cases': self.n_exhaustive,
             'exhaustive': False,
-            'samples': [{'case': {k: cases[i][k] for k in ('ref', 'refkind', 'klass', 'taps_strand', 'unsafe', 'invert', 'force', 'kw', 'frags', 'contig', '_hist') if k in cases[i]},
+            'samples': [{'case': {k: cases[i][k] for k in ('ref', 'refkind', 'klass', 'taps_strand', 'unsafe', 'invert', 'force', 'kw', 'frags', 'contig', '_hist', '_mhist') if k in cases[i]},
                          'impl_calls': res[i].get('calls'), 'impl_tags': res[i].get('tags')}
                         for i in (self.n_corpus + 77, len(cases) - 1)],
         })
@@ -657,6 +776,9 @@ class Prop(fw.PropBase):
             hin.append(inputs[pos:pos + len(h['mols'])]); pos += len(h['mols'])
         for hi_, hv in zip(hin, fw.run_model('C14', 4, hin) if hin else []):
             mout += hv if hv != [-2] else [[-2]] * len(hi_)
+        fins = collections.Counter(c['_mhist'][0] for c in cases if '_mhist' in c)
+        for mi, mv in enumerate(fw.run_model('C14', 5, self.mh_inputs) if self.mh_inputs else []):
+            mout += mv if mv != [-2] else [[-2]] * fins[mi]
         if len(mout) != len(inputs):
             raise fw.Broken('model', 'history mode returned %d results for %d molecules' % (len(mout), len(inputs)))
         mpre = fw.run_model('C14', 1, inputs)
@@ -684,6 +806,12 @@ class Prop(fw.PropBase):
             ok, nm2, log = fw.vm_crosscheck('C14', 4, [(hin[i], o) for i, o in zip(hidx, hm)])
             nm += nm2
             idx = idx + hidx
+        if ok and self.mh_inputs:
+            midx = sorted(self.rng.sample(range(len(self.mh_inputs)), min(10, len(self.mh_inputs))))
+            mm = fw.run_model('C14', 5, [self.mh_inputs[i] for i in midx])
+            ok, nm3, log = fw.vm_crosscheck('C14', 5, [(self.mh_inputs[i], o) for i, o in zip(midx, mm)])
+            nm += nm3
+            idx = idx + midx
         self.cov['vm_compute_crosscheck'] = {'cases': len(idx), 'mismatches': nm}
         if not ok:
             raise fw.Broken('extraction', 'vm_compute and extracted model disagree: ' + log[-800:])
@@ -698,9 +826,9 @@ class Prop(fw.PropBase):
         """The statement of C14 transcribed in python (spec_violations / table_violations above: independent of the
         Coq model and of position_to_context) evaluated on the implementation's outputs; smallest witness per kind."""
         if getattr(self, 'res', None) is None:
-            singles, self.hists = self.gen_cases(), self.gen_histories()
-            res, hres = self.run_impl_batched(singles, self.hists)
-            self.cases, self.res = self.flatten(singles, res, self.hists, hres)
+            singles, self.hists, self.mhists = self.gen_cases(), self.gen_histories(), self.gen_mhists()
+            res, hres, mres = self.run_impl_batched(singles, self.hists, self.mhists)
+            self.cases, self.res = self.flatten(singles, res, self.hists, hres, self.mhists, mres)
         live = getattr(self, 'live_table', None)
         if live is None:
             try:
@@ -728,6 +856,13 @@ class Prop(fw.PropBase):
                            'mols': [{x: m[x] for x in ('contig',) + keys if x in m} for m in h['mols'][:k + 1]]}}
                 size = len(json.dumps(winput))
                 prefix = 'history:' if k > 0 else ''
+            elif '_mhist' in c:
+                mi, oi, nf = c['_mhist']
+                m = self.mhists[mi]
+                winput = {'operations on ONE molecule object, in order; the violation is at the last __finalise__':
+                          dict({x: m[x] for x in keys if x in m and x != 'frags'}, ops=m['ops'][:oi + 1])}
+                size = len(json.dumps(winput))
+                prefix = 'refinalise:' if nf > 0 else ''
             else:
                 winput = {x: c[x] for x in keys if x in c}
                 size = len(json.dumps(c['frags'])) + len(c['ref'])
